@@ -327,7 +327,83 @@ class Explorer(object):
                              {'row': (a, l, v), 'new_versions': new_versions})
 
 
+SPLIT_DEPS = [
+    [(('va', 'a2'), ('AFTER_MIGRATIONS', ('vm', '0002_add_x')))],
+    [(('va', 'a1'), ('BEFORE_MIGRATIONS', ('vm', '0001_initial')))],
+    [(('va', 'a1'), ('BEFORE_MIGRATIONS', ('vm', '0002_add_x'))),
+     (('va', 'a2'), ('AFTER_MIGRATIONS', ('vm', '0002_add_x')))],
+    [],
+]
+
+
+def split_batch_scenario(idx, add, stats):
+    """One app whose pending evolutions are forced into different batches
+    by migration dependencies (the four-app project of C09): every pending
+    label's SQL must run exactly once in the run, be recorded exactly once
+    on the version that run saved, and a second run must execute nothing."""
+    from vf.checks import c09_pipeline as CP
+    deps = SPLIT_DEPS[idx]
+    for applied_a1 in (False, True):
+        img = CP.start_image(applied_a1)
+        CP.install(2, deps, applied_a1)
+        B.restore(img, 'default')
+        B.reset_globals()
+        replay = {'scenario': 'split-batches', 'deps_index': idx,
+                  'applied_a1': applied_a1}
+        tracer = O.Tracer('default')
+        res = D.d2_all(tracer=tracer)
+        stats['upgrade_runs'] += 1
+        ctx = 'split-batches:%s' % CP.dep_shape(deps)
+        if not res.ok:
+            stats['failed_runs'] += 1
+            add('C08|upgrade-fails|%s|%s' % (res.exc_type, ctx), replay,
+                {'error': str(res.exc)[:300]})
+            continue
+        units = [u for u in CP.units_from_sql(tracer.effects(), dedup=False)
+                 if u[0] == 'e']
+        want = [('e', 'va', 'a1'), ('e', 'va', 'a2'), ('e', 'vab', 'b1')]
+        if applied_a1:
+            want.remove(('e', 'va', 'a1'))
+        for u in want:
+            n = units.count(u)
+            if n != 1:
+                add('C08|evolution-sql-executed-%d-times|%s' % (n, ctx),
+                    replay, {'unit': u, 'units': units})
+        for u in set(units) - set(want):
+            add('C08|recorded-evolution-executed-again|%s' % ctx, replay,
+                {'unit': u})
+        rows = (O.bookkeeping_dump('default')['evolutions'] or [])
+        mine = sorted((a, l) for (a, l, v) in rows if a in ('va', 'vab'))
+        if mine != [('va', 'a1'), ('va', 'a2'), ('vab', 'b1')]:
+            add('C08|recorded-labels-differ-from-reference|%s' % ctx,
+                replay, {'got': mine})
+        # second run: nothing pending
+        B.reset_globals()
+        t2 = O.Tracer('default')
+        r2 = D.d2_all(tracer=t2)
+        stats['upgrade_runs'] += 1
+        again = [u for u in CP.units_from_sql(t2.effects(), dedup=False)]
+        if not r2.ok or again:
+            add('C08|second-run-executes-again|%s' % ctx, replay,
+                {'units': again, 'error': str(r2.exc)[:200]})
+
+
 def work(task):
+    if task[0] == 'split':
+        stats = {'events': 0, 'states': 0, 'upgrade_runs': 0,
+                 'failed_runs': 0, 'command_events': 0, 'max_depth': 0,
+                 'samples': [], 'dedup_hits': 0, 'split_batch_scenarios': 1}
+        viol = {}
+
+        def add(fp, replay, detail):
+            ent = viol.get(fp)
+            if ent is None:
+                viol[fp] = {'count': 1, 'exemplar': replay,
+                            'detail': detail, 'size': len(S.canon(replay))}
+            else:
+                ent['count'] += 1
+        split_batch_scenario(task[1], add, stats)
+        return stats, viol
     variant, depth, first = task
     hist = project_history(variant)
     hist.variant = variant
@@ -347,6 +423,8 @@ def run(tier, seed, confirm=True):
         ex = Explorer(hist, depth)
         for ev in ex.enabled(0, {'rec': {}, 'exec': {}}, False):
             tasks.append((variant, depth, list(ev)))
+    for i in range(len(SPLIT_DEPS)):
+        tasks.append(('split', i, None))
     total = {}
     coll = findings.Collector(PROP)
     for stats, viol in explore.run_tasks('vf.checks.c08.work', tasks,
@@ -365,7 +443,10 @@ def run(tier, seed, confirm=True):
         'mark_wipe_command_events': total['command_events'],
         'dedup_hits': total['dedup_hits'],
         'projects': 'two apps sharing evolution labels, two project '
-                    'variants, three code versions each',
+                    'variants, three code versions each; plus %d '
+                    'split-batch scenarios (pending evolutions of one app '
+                    'separated by migration dependencies) x 2 start '
+                    'states' % len(SPLIT_DEPS),
     }
     print('C08 %s: depth %d, %d events, %d states, %d upgrade runs (%d '
           'failed), %d mark/wipe commands' % (
@@ -384,6 +465,18 @@ def run(tier, seed, confirm=True):
 def replay(path):
     doc = common.load_replay(path)
     r = doc['replay']
+    if r.get('scenario') == 'split-batches':
+        found = {}
+        split_batch_scenario(r['deps_index'],
+                             lambda fp, rp, d: found.setdefault(fp, d),
+                             {'upgrade_runs': 0, 'failed_runs': 0})
+        for fp, d in found.items():
+            print('  %s %s' % (fp, str(d)[:300]))
+        if doc['fingerprint'] in found:
+            print('REPRODUCED %s' % doc['fingerprint'])
+            return 1
+        print('NOT-REPRODUCED')
+        return 0
     hist = project_history(r['variant'])
     hist.variant = r['variant']
     ex = Explorer(hist, len(r['events']), None)
